@@ -11,7 +11,7 @@ LEVEL = "exploration"
 TECHNIQUE = ("deterministic simulation: seeded histories of resizes / toggles / getters on the "
              "simulated tty compared with a fresh-computation model, plus baton-scheduled "
              "concurrent first calls of memoized functions")
-LEVEL_TEXT = ("History worlds: <= 30 seeded operations from {resize in cells and/or pixels, "
+LEVEL_TEXT = ("History worlds: <= 30 (thorough tier: 60) seeded operations from {resize in cells and/or pixels, "
               "pixel-only change, enable/disable_win_size_swap, enable/disable_queries, "
               "set_cell_ratio(FIXED | DYNAMIC | float), get_cell_size, get_cell_ratio, "
               "get_fg_bg_colors, get_terminal_name_version, calls of harness functions decorated "
@@ -34,7 +34,7 @@ LEVEL_NOTE = ("Trusted: FactsModel (documented caching rules), SimTTY's ioctl/XT
               "after both have finished is judged).")
 TIERS = {
     "quick": {"runs": 14000, "max_ops": 30},
-    "thorough": {"runs": 400000, "max_ops": 30, "wall_cap": 1500},
+    "thorough": {"runs": 400000, "max_ops": 60, "wall_cap": 1500},
 }
 RULE = ("history world = seeded terminal profile + <= max_ops operations; concurrency world = "
         "2-4 tasks x seeded schedule making first calls; non-trivial = a get, an invalidating "
